@@ -462,3 +462,50 @@ package graph
 //@   ensures  [monotone] forall(k, any, imp(old(in(k, reported)), in(k, reported)))
 //@   assigns  VisitM, reported, dvisited
 //@   before "return g.dfs(" set dvisited = emptyset(any)
+
+// ---------------------------------------------------------------- kahn.go
+// Ghost position functions: kpos[k] is the index of vertex key k in L, spos[k]
+// its index in the work list S. A normal return certifies a permutation of the
+// vertices in which every edge points forward — which exists only for acyclic
+// graphs (meta-lemma M3) — so a cyclic graph cannot return normally.
+//@ ghostvar kpos fmap[any,int]
+//@ ghostvar spos fmap[any,int]
+//@ ghost inL(L []Vertex, k any) bool = 0 <= kpos[k] && kpos[k] < len(L) && hc(L[kpos[k]]) == k
+//@ ghost inS(S []interface{}, k any) bool = 0 <= spos[k] && spos[k] < len(S) && S[spos[k]] == k
+// hash codes are plain values: hashing a hash code gives it back (RemoveEdge is called with keys)
+//@ ghost keysPlain(g *Graph) bool = forall(k, any, imp(has(g.hash, k), hc(k) == k))
+
+//@ ghost kahnBase(g *Graph, o *Graph, L []Vertex, S []interface{}) bool =
+//@     heapKept() && g != nil && g != o && wf(g) && fresh(g) && fresh(g.hash) && fresh(g.adjacencyOut) && fresh(g.adjacencyIn)
+//@     && forall(k, any, imp(has(g.hash, k), fresh(g.adjacencyOut[k]) && fresh(g.adjacencyIn[k])))
+//@     && forall(k, any, has(g.hash, k) == has(o.hash, k) && g.hash[k] == o.hash[k])
+//@     && soff(L) == 0 && soff(S) == 0
+//@     && forall(i, int, imp(0 <= i && i < len(L), has(o.hash, hc(L[i])) && L[i] == o.hash[hc(L[i])] && kpos[hc(L[i])] == i))
+//@     && forall(a, any, b, any, imp(edge(o, a, b) && inL(L, b), inL(L, a) && kpos[a] < kpos[b]))
+//@     && forall(s, int, imp(0 <= s && s < len(S), has(o.hash, S[s]) && spos[S[s]] == s && !inL(L, S[s]) && forall(a, any, !edge(g, a, S[s]))))
+//@     && forall(k, any, imp(has(o.hash, k) && forall(a, any, !edge(g, a, k)), inL(L, k) || inS(S, k)))
+
+//@ func (*Graph).KahnSort
+//@   requires wf(g) && keysPlain(g)
+//@   ensures  [members] forall(i, int, imp(0 <= i && i < len(result), has(old(g).hash, hc(result[i])) && result[i] == old(g).hash[hc(result[i])] && kpos[hc(result[i])] == i))
+//@   ensures  [all-listed] forall(k, any, imp(has(old(g).hash, k), 0 <= kpos[k] && kpos[k] < len(result) && hc(result[kpos[k]]) == k))
+//@   ensures  [edges-forward] forall(a, any, b, any, imp(edge(old(g), a, b), kpos[a] < kpos[b]))
+//@   ensures  [original-untouched] heapKept()
+//@   assigns  Graph.adjacencyOut, Graph.adjacencyIn, Graph.hash, Outer, HashM, Inner, []Vertex, []interface{}, kpos, spos
+//@   after "S = append(S, v)" set spos = update(spos, v, len(S)-1)
+//@   after "L = append(L, g.hash[n])" set kpos = update(kpos, n, len(L)-1)
+//@   after "S = append(S, m)" set spos = update(spos, m, len(S)-1)
+//@   loop 1 invariant heapKept() && g != nil && g != old(g) && wf(g) && fresh(g) && fresh(g.hash) && fresh(g.adjacencyOut) && fresh(g.adjacencyIn) && rmap1 == g.adjacencyIn
+//@   loop 1 invariant forall(k, any, imp(has(g.hash, k), fresh(g.adjacencyOut[k]) && fresh(g.adjacencyIn[k])))
+//@   loop 1 invariant forall(k, any, has(g.hash, k) == has(old(g).hash, k) && g.hash[k] == old(g).hash[k])
+//@   loop 1 invariant forall(a, any, b, any, edge(g, a, b) == edge(old(g), a, b))
+//@   loop 1 invariant len(L) == 0 && soff(L) == 0 && soff(S) == 0
+//@   loop 1 invariant forall(s, int, imp(0 <= s && s < len(S), has(old(g).hash, S[s]) && spos[S[s]] == s && in(S[s], seen1) && forall(a, any, !edge(g, a, S[s]))))
+//@   loop 1 invariant forall(k, any, imp(in(k, seen1), has(g.hash, k) && (forall(a, any, !edge(g, a, k)) == inS(S, k))))
+//@   loop 2 invariant kahnBase(g, old(g), L, S)
+//@   loop 2 invariant forall(a, any, b, any, edge(g, a, b) == (edge(old(g), a, b) && !inL(L, a)))
+//@   loop 3 invariant kahnBase(g, old(g), L, S) && rmap3 == g.adjacencyOut[n] && inL(L, n) && kpos[n] == len(L)-1 && has(old(g).hash, n)
+//@   loop 3 invariant forall(a, any, b, any, edge(g, a, b) == (edge(old(g), a, b) && (!inL(L, a) || (a == n && !in(b, seen3)))))
+//@   loop 4 invariant kahnBase(g, old(g), L, S) && len(S) == 0 && rmap4 == g.adjacencyOut
+//@   loop 4 invariant forall(a, any, b, any, edge(g, a, b) == (edge(old(g), a, b) && !inL(L, a)))
+//@   loop 4 invariant forall(a, any, imp(in(a, seen4), forall(b, any, !edge(g, a, b))))
